@@ -35,6 +35,8 @@ type c12Loop struct {
 	stepV  string // non-empty: the step is this variable (its sign is not known to the analysis)
 	mul    int    // non-zero: the update is v *= mul (a geometric counter, not start + k*step)
 	cmpT   string // non-empty: the header test compares cmpT(v) with cmpT(bound)
+	rawN   string // non-empty: the bound, verbatim (an expression already of the counter's type)
+	rawS   string // non-empty: the start, verbatim
 	shape  string
 	native string
 	plain  string
@@ -67,6 +69,12 @@ func c12Gen(l *c12Loop, inner [2]string) {
 	}
 	if l.mul != 0 {
 		upd = fmt.Sprintf("%s *= %d", v, l.mul)
+	}
+	if l.rawN != "" {
+		N = l.rawN
+	}
+	if l.rawS != "" {
+		S = l.rawS
 	}
 	tv := v // what the header test looks at
 	if l.cmpT != "" {
@@ -253,6 +261,28 @@ func c12Family(thorough bool) []*c12Func {
 							c12Gen(l, [2]string{})
 							add(fmt.Sprintf("int8/%s/%s(i)%s%s/start=%s/step=%+d", shape, cmpT, op, bound, start, step), []*c12Loop{l}, l.plain, l.native)
 						}
+					}
+				}
+			}
+		}
+	}
+	// a start or bound that is ARITHMETIC in the narrow type on a parameter (it wraps for some arguments)
+	for _, T := range []string{"uint8", "int8"} {
+		for _, shape := range []string{"for3", "while"} {
+			for _, op := range []string{"<", "<=", ">"} {
+				for _, step := range []int{1, -1} {
+					for _, ex := range []struct{ id, s, n string }{
+						{"bound=T(b)-5", "", T + "(b)-5"}, {"bound=T(b)+T(b)", "", T + "(b)+" + T + "(b)"}, {"bound=T(b)*3", "", T + "(b)*3"},
+						{"start=T(b)-5", T + "(b)-5", ""}, {"start=T(a)+100", T + "(a)+100", ""},
+						{"bound=c-5", "", "c-5"}, {"bound=c+c", "", "c+c"}, {"start=c-5", "c-5", ""},
+					} {
+						l := &c12Loop{id: 0, v: "i", typ: T, start: "0", bound: "10", op: op, step: step, shape: shape, rawN: ex.n, rawS: ex.s}
+						c12Gen(l, [2]string{})
+						pre := ""
+						if strings.Contains(ex.id, "c") && !strings.Contains(ex.id, "T(") {
+							pre = "c := " + T + "(b)\n"
+						}
+						add(fmt.Sprintf("%s/%s/i%s/%s/step=%+d/narrow-arithmetic", T, shape, op, ex.id, step), []*c12Loop{l}, pre+l.plain, pre+l.native)
 					}
 				}
 			}
